@@ -2,8 +2,8 @@
 
 Proofs (coq/props/C10.v):
   Batch.v   the shared broadcasting batch rule (broadcast_batcher_compat + _handle_scalar_broadcasting) against the
-            DEFINITION of vmap: refuted for the unchanged tree (witness), proved on the exact fragment where the
-            unchanged code is right, proved for ALL shapes for the repaired helper; the hypothesis "elementwise
+            DEFINITION of vmap: proved for ALL shapes for the current helper (axes after the batch axis, c32db30);
+            history: refuted for the old helper (witness), proved on the exact fragment where it was right; the hypothesis "elementwise
             with numpy broadcasting" is shown to be necessary (jnp.dot / jnp.matmul register the same rule).
   Inline.v  _freshen_closed_jaxpr as alpha-renaming + JitPlugin.lower (= custom_jvp_call/custom_vjp_call/remat2
             body lowering): same graph / same outer bindings as lowering the body directly, no clash between two
@@ -14,8 +14,8 @@ Proofs (coq/props/C10.v):
 Ties:
   D(batcher)  the REAL broadcast_batcher_compat is driven directly (numpy integer operands, a recording primitive
               with numpy broadcasting) on generated (shapes, batch dims); result shape / batch dim / values /
-              raises are compared INSIDE Coq with the model (Batch.batcher or Batch.batcher_fixed, chosen by
-              probing the witness on the real code), and Batch.vmap_spec with numpy's stack-of-examples.
+              raises are compared INSIDE Coq with the model of the current code (Batch.batcher_fixed; Batch.batcher is
+              the historical helper, kept with its refutation), and Batch.vmap_spec with numpy's stack-of-examples.
   D(inline)   real _freshen_closed_jaxpr on traced jaxprs is an injective, fresh renaming that keeps structure;
               the four body-lowering plugins have the statement shape of Lowering.inline_plugin (AST).
   D(linear)   the real jax.numpy functions named in the allow-list are linear on integer data and have the
@@ -122,8 +122,10 @@ def tie_batcher(ctx):
     y = np.arange(9).reshape(3, 3) * 10
     out, od = broadcast_batcher_compat(_RecPrim(), (x, y), (0, None))
     fixed_code = bool(np.array_equal(np.moveaxis(np.asarray(out), od, 0), _np_vmap_ref(x, 0, y, None)))
-    model = "batcher_fixed" if fixed_code else "batcher"
-    ctx.coverage["batcher_variant_on_this_tree"] = "axes-after-batch (repaired)" if fixed_code else "axes-at-end (unchanged)"
+    # the model of the CURRENT code is Batch.batcher_fixed (commit c32db30); Batch.batcher images the historical helper.
+    # A tree that behaves like the historical helper fails this tie and the search below reports the concrete operands.
+    model = "batcher_fixed"
+    ctx.coverage["batcher_variant_on_this_tree"] = "axes-after-batch (current)" if fixed_code else "axes-at-end (historical helper: regression)"
     n = 100 if ctx.tier == "quick" else 600
     cases = _gen_batch_cases(rng, n)
     rows = []
@@ -203,15 +205,16 @@ def tie_batcher(ctx):
         inside = _in_fragment(c)
         table[("in_fragment_" if inside else "outside_") + ("wrong" if c in wrong_set else "right")] += 1
     ctx.coverage["partial_theorem_fragment_vs_real_code"] = table
-    ctx.oblige("tie:real-batcher-is-vmap-on-the-fragment-of-C10_batcher_correct_partial", table["in_fragment_wrong"] == 0, "tie",
-               "" if table["in_fragment_wrong"] == 0 else f"{table}")
+    # C10_batcher_fixed_correct + the tie: the real rule is vmap on EVERY generated case (the historical helper was right only
+    # inside the fragment of C10_batcher_correct_partial: the table says where a regression sits)
+    ctx.oblige(f"tie:real-batcher-is-vmap-on-all-generated-cases({len(cases)})", not wrong, "tie", "" if not wrong else f"{table}")
     # search on the real code: the batcher level witness
     if wrong:
         (sx, dx, sy, dy), got, want = next((w for w in wrong if w[0] == ((3, 3), 0, (3, 3), None)), wrong[0])
         ctx.violate("batcher:new-axes-appended-at-end",
                     f"broadcast_batcher_compat is not vmap for an elementwise numpy-broadcasting primitive: operands {sx} (bdim {dx}) and {sy} "
                     f"(bdim {dy}) give {'other VALUES than' if got == want else str(got) + ' instead of'} the stack of per-example results (shape {want}) "
-                    f"({len(wrong)} of {len(rows)} generated cases; _handle_scalar_broadcasting appends the new axes at the end)",
+                    f"({len(wrong)} of {len(rows)} generated cases" + ("" if fixed_code else "; _handle_scalar_broadcasting appends the new axes at the end") + ")",
                     {"kind": "batcher", "x_shape": list(sx), "x_bdim": dx, "y_shape": list(sy), "y_bdim": dy})
     return fixed_code
 
